@@ -173,7 +173,10 @@ PROPS = {
     "C12": dict(jobs=[t_job("t_tsan", "A", (4, 350, 40, 4, ["--reps", "3"]), (12, 4000, 60, 8, ["--reps", "4"]), "T-A(TSan)"),
                       t_job("t_asan", "B", (2, 3000, 40, 4, []), (8, 40000, 60, 8, []), "T-B(owned schedule)"),
                       t_job("t_asan", "E", (2, 25, 20, 3, ["--cap", "1500"]), (8, 150, 24, 3, ["--cap", "20000"]), "T-E(exhaustive schedules)"),
-                      t_job("t_tsan_gcc", "A", (0, 0, 0, 0, []), (4, 2000, 60, 6, ["--reps", "3"]), "T-A(TSan,g++)")],
+                      t_job("t_tsan_gcc", "A", (0, 0, 0, 0, []), (4, 2000, 60, 6, ["--reps", "3"]), "T-A(TSan,g++)"),
+                      # the library's own std::recursive_mutex (no shim): ThreadSanitizer alone; the first program of each process starts
+                      # its workers before the main thread has locked anything (many short processes rather than few long ones)
+                      t_job("t_tsan_std", "A", (8, 60, 40, 4, ["--reps", "2"]), (16, 1500, 60, 8, ["--reps", "3"]), "T-A(TSan, library's own mutex)")],
                 rule="engine T: rapidcheck generates programs of 2..8 threads x 1..6 operations over shared mocks and sequences "
                      "(thread-owned expectations, monitors, private mocks whose expectation may be published and released by another thread, shared "
                      "deathwatched objects whose requirements are registered and released by different threads) with a prologue; mode A runs them free under ThreadSanitizer with a "
